@@ -61,6 +61,15 @@ fn check(case: &str) -> Option<String> {
                     }
                     if let Some(m) = loc_ok(pre, &e) { return Some(format!("{:?}: {}", String::from_utf8_lossy(pre), m)); }
                 }
+                // the location-tracking API and the stream source on the same prefix
+                for (api, r) in [("datum::from_slice_custom", lexpr::datum::from_slice_custom(pre, o.clone()).map(|_| ())), ("datum::from_reader_custom", lexpr::datum::from_reader_custom(pre, o.clone()).map(|_| ())), ("from_reader_custom", lexpr::from_reader_custom(pre, o.clone()).map(|_| ()))] {
+                    if let Err(e) = r {
+                        if e.classify() != Category::Eof {
+                            return Some(format!("{:?} is a proper prefix of the datum {:?} but {} fails with a {:?} error ({}), not EOF", String::from_utf8_lossy(pre), String::from_utf8_lossy(&text), api, e.classify(), e));
+                        }
+                        if let Some(m) = loc_ok(pre, &e) { return Some(format!("{:?} ({}): {}", String::from_utf8_lossy(pre), api, m)); }
+                    }
+                }
             }
             None
         }
